@@ -35,6 +35,7 @@ type PropConfig struct {
 	Transitions []TransitionCheck `json:"transitions,omitempty"` // K6b: guarded SQL state-machine updates
 	ScanColumns []ScanColumnCheck `json:"scan_columns,omitempty"` // K6c: provenance of a scanned column
 	Wheres      []WhereCheck      `json:"wheres,omitempty"`       // K6d: WHERE-clause entailment (3VL)
+	Buckets     []BucketCheck     `json:"buckets,omitempty"`      // K6e: time-bucket rewrite templates
 }
 
 type BoundedCheck struct {
@@ -268,6 +269,18 @@ func cmdCheck(args []string) int {
 			all = append(all, &oblResult{O: o, FR: &FuncResult{Key: tc.Function}})
 		}
 		assumed["DuckDB three-valued logic: WHERE keeps a row iff the filter is TRUE; NOT NULL = NULL; IS [NOT] TRUE and COALESCE as in the SQL standard (validated by the SQL replay on refutation)"] = true
+	}
+	for _, bc := range cfg.Buckets {
+		obls, und := p.bucketObligations(bc)
+		for _, u := range und {
+			undecidedFuncs = append(undecidedFuncs, u)
+			fmt.Printf("UNDECIDED bucket=%s reason=%s\n", bc.Name, u)
+		}
+		funcsUnder = append(funcsUnder, bc.Function+" (time-bucket rewrite template "+bc.Name+")")
+		for _, o := range obls {
+			all = append(all, &oblResult{O: o, FR: &FuncResult{Key: bc.Function}})
+		}
+		assumed["DuckDB: time_bucket/date_trunc floor to multiples of the width counted from 2000-01-03 (or the given origin); epoch() is seconds as DOUBLE; ::BIGINT rounds to nearest; // truncates toward zero (each validated by the known-finding demonstrations in the real DuckDB)"] = true
 	}
 	for _, sc := range cfg.ScanColumns {
 		obls, und := p.scanColumnObligations(sc)
